@@ -461,6 +461,80 @@ def classify_underlying_history(case):
     return labels, len(set(evals)) >= 2
 
 
+
+# ------------------------------------------------------------------------------------ rainbow on a multi-asset path
+@st.composite
+def strat_rainbow(draw, tier):
+    d = draw(st.integers(2, 4))
+    w = [draw(_f(0.05, 1.0)) for _ in range(d)]
+    tot = sum(w)
+    return {"d": d, "weights": [float(f"{x / tot:.6g}") for x in w], "strike": draw(_f(0.5, 1.5)),
+            "type": draw(st.sampled_from(["CALL", "PUT"])), "und": draw(st.sampled_from(["spot", "performances"])),
+            "rep": draw(st.sampled_from(["IDENDITY", "LOG"])), "spots0": [draw(_f(20.0, 200.0)) for _ in range(d)],
+            "terminal": [draw(_f(0.3, 2.5)) for _ in range(d)], "mid": [draw(_f(0.5, 1.5)) for _ in range(d)],
+            "notional": draw(st.sampled_from([1.0, 2.0, 0.01]))}
+
+
+def body_rainbow(case):
+    from rpylib.product.payoff import Forward, PayoffType, Rainbow
+    from rpylib.product.product import Product
+    from rpylib.product.underlying import NthSpot, Performances, Spot
+
+    out = []
+    d = case["d"]
+    s0 = np.array(case["spots0"], dtype=float)
+    spot_path = np.array([s0, s0 * np.array(case["mid"]), s0 * np.array(case["terminal"])]).T  # (d, 3)
+    rep = _rep(case["rep"])
+    path = np.log(spot_path) if case["rep"] == "LOG" else spot_path.copy()
+    times = np.array([0.0, 0.5, 1.0])
+    detail = f"case={case}"
+    if case["und"] == "performances":
+        und, vec = Performances(spots=s0), spot_path[:, -1] / s0
+        strike = case["strike"]
+    else:
+        und, vec = Spot(), spot_path[:, -1].copy()
+        strike = case["strike"] * float(np.mean(s0))
+    eps = 1.0 if case["type"] == "CALL" else -1.0
+    # weights are given from the best to the worst performer
+    ref = max(0.0, eps * (float(np.dot(np.sort(vec)[::-1], case["weights"])) - strike)) * case["notional"]
+    prod = Product(payoff_underlying=und, payoff=Rainbow(weights=list(case["weights"]), strike=strike, payoff_type=PayoffType[case["type"]]),
+                   maturity=1.0, notional=case["notional"])
+    prod.update(rep)
+    others = [Product(payoff_underlying=NthSpot(k + 1), payoff=Forward(strike=0.0), maturity=1.0) for k in range(d)]
+    for o in others:
+        o.update(rep)
+    keep = path.copy()
+    tol = 1e-12 * (abs(ref) + abs(strike) + float(np.max(vec))) * max(case["notional"], 1.0)
+    for rnd in range(2):
+        u = prod.underlying_value(times, path, path)
+        u_keep = np.array(u, dtype=float).copy()
+        val = float(np.asarray(prod(u), dtype=float))
+        if abs(val - ref) > tol:
+            out.append(Violation("C17/rainbow/value-differs-from-the-weighted-ranked-performances" + ("/second-evaluation" if rnd else ""),
+                                 f"{val!r} vs {ref!r}; {detail}"))
+            return out
+        if not np.array_equal(np.asarray(u, dtype=float), u_keep):
+            out.append(Violation("C17/rainbow/underlying-vector-changed-by-the-evaluation",
+                                 f"{np.asarray(u).tolist()} was {u_keep.tolist()}; {detail}"))
+            return out
+        if not np.array_equal(path, keep):
+            out.append(Violation("C17/rainbow/path-changed-by-the-evaluation", f"{path.tolist()} was {keep.tolist()}; {detail}"))
+            return out
+        # products evaluated on the same path afterwards see the assets where they were
+        for k, o in enumerate(others):
+            v = float(np.asarray(o(o.underlying_value(times, path, path)), dtype=float))
+            if abs(v - spot_path[k, -1]) > 1e-12 * spot_path[k, -1]:
+                out.append(Violation("C17/rainbow/later-product-on-the-same-path-reads-another-asset",
+                                     f"asset {k + 1}: {v!r} vs {spot_path[k, -1]!r}; {detail}"))
+                return out
+    return out
+
+
+def classify_rainbow(case):
+    ordered = all(a <= b for a, b in zip(case["terminal"], case["terminal"][1:]))
+    return [case["und"], case["rep"], f"d={case['d']}", "already-ordered" if ordered else "not-ordered"], not ordered
+
+
 SUBCHECKS = [
     SubCheck("histories-on-one-product", body_history, classify_history,
              rule="operation lists (evaluate path i, switch to LOG / IDENTITY) over one Product (four barrier types, "
@@ -479,6 +553,12 @@ SUBCHECKS = [
                   "call-put=forward, call spread and butterfly vs call combinations, digital call+put=1, KI+KO=vanilla "
                   "(fresh and reused objects), notional linear; non-trivial = barrier crossed or vector strikes",
              strategy=strat_identities, budget={"quick": 4800, "thorough": 30000}),
+    SubCheck("rainbow-on-a-multi-asset-path", body_rainbow, classify_rainbow,
+             rule="rainbow call/put on Spot or Performances of 2..4 assets, both representations: value vs the weighted "
+                  "ranked terminal values, evaluated twice; the vector handed to the payoff and the path are unchanged, and "
+                  "single-asset products evaluated afterwards on the same path read their own asset; non-trivial = "
+                  "terminal values not already in increasing order",
+             strategy=strat_rainbow, budget={"quick": 480, "thorough": 2400}, shards={"quick": 16, "thorough": 16}),
     SubCheck("histories-on-one-underlying", body_underlying_history, classify_underlying_history,
              rule="every underlying class (incl. multi-name default times, n-th default, performances, indicators) as one "
                   "object valued on a generated sequence of 2..4 paths with representation switches in between: each "
